@@ -237,6 +237,95 @@ def portref_slice_designs():
             yield (f"prefslice/{rname}/{'outer-concat/' if outer else ''}{idx!r}", b)
 
 
+def relative_index_designs():
+    """indices relative to the END of a bus (negative, open-ended) where the end is not where a shortcut would put it:
+    (a) a concatenation / signal / slice of a concatenation one of whose parts is resized after its width - or that of
+        a slice of it - was looked at; the slice taken before or after the resize;
+    (b) signals of ONE name and different widths in different modules of one design (calls of one generator), each
+        sliced with the same relative index"""
+    import hdl21 as h
+    idxs = {"-1": -1, "-2:": slice(-2, None), "1:": slice(1, None), ":-1": slice(None, -1), "0": 0, "-3:-1": slice(-3, -1)}
+
+    def mk(target, query, resize, iname, when):
+        idx = idxs[iname]
+
+        def b():
+            T = h.ExternalModule(name="RProbe", port_list=[h.Inout(name="t")], desc="", domain="cc")
+            m = h.Module(name="Resized")
+            m.lo, m.hi = h.Signal(width=2), h.Signal(width=2)
+            bus = {"concat": lambda: h.Concat(m.lo, m.hi), "nested": lambda: h.Concat(h.Concat(m.lo), m.hi),
+                   "signal": lambda: m.lo, "slice-of-concat": lambda: h.Concat(m.lo, m.hi)[1:],
+                   "concat-of-slice": lambda: h.Concat(m.lo[0:], m.hi)}[target]()
+            x = bus[idx] if when == "before" else None
+            if query == "width":
+                assert bus.width >= 2
+            elif query == "slice-width":
+                assert bus[-1].width == 1 and (x is None or x.width >= 1)
+            elif query == "top-bot":
+                y = x if x is not None else bus[0:]
+                assert y.top - y.bot >= 1
+            lo_w, hi_w = {"lo+2": (4, 2), "hi+1": (2, 3), "lo-1": (1, 2), "lo+1": (3, 2)}[resize]
+            m.lo.width, m.hi.width = lo_w, hi_w
+            if x is None:
+                x = bus[idx]
+            total = {"signal": lo_w, "slice-of-concat": lo_w + hi_w - 1}.get(target, lo_w + hi_w)
+            n = len(list(range(total))[idx]) if isinstance(idx, slice) else 1
+            for k in range(lo_w):
+                m.add(T()(t=m.lo[k]), name=f"l{k}")
+            for k in range(hi_w):
+                m.add(T()(t=m.hi[k]), name=f"h{k}")
+            W = h.ExternalModule(name=f"RWide{n}", port_list=[h.Inout(name="q", width=n)], desc="", domain="cc")
+            m.i = W()(q=x)
+            return m
+        return b
+    for target in ("concat", "nested", "signal", "slice-of-concat", "concat-of-slice"):
+        for query in ("none", "width", "slice-width", "top-bot"):
+            for resize in ("lo+2", "hi+1", "lo-1", "lo+1"):
+                for iname in idxs:
+                    for when in ("before", "after"):
+                        total = {"lo+2": 6, "hi+1": 5, "lo-1": 3, "lo+1": 5}[resize]
+                        if target == "signal":
+                            total = {"lo+2": 4, "hi+1": 2, "lo-1": 1, "lo+1": 3}[resize]
+                        elif target == "slice-of-concat":
+                            total -= 1
+                        idx = idxs[iname]
+                        sel = list(range(total))[idx] if isinstance(idx, slice) else [0]
+                        if not sel or (when == "before" and target == "signal" and resize == "lo-1"):
+                            continue
+                        if when == "before" and (len(list(range(4 if target != "signal" else 2))[idx] if isinstance(idx, slice) else [0]) == 0):
+                            continue      # the slice would be empty (refused) at the time it is taken
+                        yield (f"relative/resized/{target}/queried-{query}/{resize}/{when}/[{iname}]", mk(target, query, resize, iname, when))
+
+    def mk2(widths, order):
+        def b():
+            @h.paramclass
+            class RegW:
+                w = h.Param(dtype=int, desc="bus width")
+
+            @h.generator
+            def Reg(p: RegW) -> h.Module:
+                T = h.ExternalModule(name="RProbe", port_list=[h.Inout(name="t")], desc="", domain="cc")
+                m = h.Module()
+                m.bus = h.Signal(width=p.w)
+                for k in range(p.w):
+                    m.add(T()(t=m.bus[k]), name=f"t{k}")
+                for iname, idx in idxs.items():
+                    n = len(list(range(p.w))[idx]) if isinstance(idx, slice) else 1
+                    if n:
+                        W = h.ExternalModule(name=f"RWide{n}", port_list=[h.Inout(name="q", width=n)], desc="", domain="cc")
+                        m.add(W()(q=m.bus[idx]), name="i" + "".join(c if c.isalnum() else "_" for c in iname))
+                return m
+            top = h.Module(name="SameName")
+            for k in order:
+                top.add(Reg(w=widths[k])(), name=f"r{k}")
+            return top
+        return b
+    import itertools as it
+    for widths in ((8, 4, 3), (3, 5), (2, 6, 4)):
+        for order in it.permutations(range(len(widths))):
+            yield (f"relative/same-name/{'-'.join(str(widths[k]) for k in order)}", mk2(widths, order))
+
+
 def name_pressure_designs():
     """designs whose declared names equal, or compose to, the names elaboration invents (the family of C05): the
     connectivity as written must survive the renaming"""
@@ -409,9 +498,9 @@ def run(ctx):
             ctx.checker_errors.append(f"array rule: only {len(obs)} obligations generated")
         ctx.discharge(obs, c_arrays.KEY + " [per-element loop body]", info)
     ctx.run_bounded(
-        "to_proto-vs-meaning", __import__("itertools").chain(design_family(ctx.tier, ctx.seed), edited_designs(), order_designs(), concat_designs(), bundle_ref_designs(), portref_slice_designs(), anon_and_pair_designs()),
+        "to_proto-vs-meaning", __import__("itertools").chain(design_family(ctx.tier, ctx.seed), edited_designs(), order_designs(), concat_designs(), bundle_ref_designs(), portref_slice_designs(), anon_and_pair_designs(), relative_index_designs()),
         lambda c: check_design(c),
-        rule=RULE + "; plus 60 designs written in several steps (a port re-connected by each of the five operations) and 40 declaration orders of a reference chain ending on slices / concatenations of a driver's ports; every concatenation of two 1-3 bit pieces of a 6-bit bus and every three-piece cut of it in every order (285 designs); references to nested bundle members whose names recur at other levels (12); slices of a port REFERENCE for 10 kinds of referent (incl. bundle members) x every index / slice with steps +-1, +-2, also through an enclosing concatenation (~1300)", bound="depth<=3, widths<=4 (8 thorough), <=4 (6) instances per module",
+        rule=RULE + "; plus 60 designs written in several steps (a port re-connected by each of the five operations) and 40 declaration orders of a reference chain ending on slices / concatenations of a driver's ports; every concatenation of two 1-3 bit pieces of a 6-bit bus and every three-piece cut of it in every order (285 designs); references to nested bundle members whose names recur at other levels (12); slices of a port REFERENCE for 10 kinds of referent (incl. bundle members) x every index / slice with steps +-1, +-2, also through an enclosing concatenation (~1300); end-relative indices into buses whose parts were resized after a width query, and into same-named signals of different widths in several modules of one design (~800)", bound="depth<=3, widths<=4 (8 thorough), <=4 (6) instances per module",
         key_of=lambda c: c[0], nontrivial=lambda c: nontrivial(c[0]))
     ctx.run_bounded("to_proto-vs-meaning under name pressure", name_pressure_designs(), check_named,
                     rule="the designs of C05's adversarial-name family (declared names equal to invented ones in both "
@@ -426,7 +515,7 @@ def replay(payload):
     want = (payload.get("input") or {}).get("design")
     if want:
         for desc, b in list(edited_designs()) + list(order_designs()) + list(concat_designs()) + list(bundle_ref_designs()) + \
-                list(portref_slice_designs()) + list(anon_and_pair_designs()):
+                list(portref_slice_designs()) + list(anon_and_pair_designs()) + list(relative_index_designs()):
             if desc == want:
                 r = check_design((desc, b))
                 print("replay:", r)
